@@ -1,13 +1,16 @@
 (* C05 — results names report exactly what the named element matched.  Statements only.
    The name view (`view`, `mm_values`, `mm_lookup`: Model/ResultsSpec.v) is what r[name], getattr, get(), as_dict() and
    dump() are functions of (C10_lookup_forms_agree / C10_as_dict_entry, re-exported below).
-   PARTIAL: these theorems characterise each step by which names are bound and merged (binding on a token / on a
-   sequence, concatenation, Group scoping, unmatched optionals, failed alternatives); the end-to-end statement over a whole
-   derivation is decided by the model-vs-implementation correspondence and by the compositional oracle of
-   tools/props/c05.py on the implementation. *)
+   Part 1 (per step): which names are bound and merged by each operation on results (binding on a token / on a
+   sequence, concatenation, Group scoping, unmatched optionals, failed alternatives).
+   Part 2 (end to end): C05_names_end_to_end_partial — on every grammar of the class `in_class_n` (results names everywhere,
+   no parse actions), every input, every fuel, the results returned by the parser have exactly the token list and the name
+   table that the reference reading `names_of` (Model/NamesSpec.v: the clauses of the property over a derivation) computes.
+   Outside that class (Each, Combine, Located, SkipTo, Dict, stop_on, parse actions, ignorables) the statement is decided by
+   the model-vs-implementation correspondence and by the compositional oracle of tools/props/c05.py on the implementation. *)
 From Coq Require Import List ZArith NArith Bool.
-From PP Require Import Model.Str Model.Results Model.ResultsAPI Model.ResultsSpec Model.Prog Model.Core.
-From PP Require Import Proofs.ResultsProofs Proofs.Names.
+From PP Require Import Model.Str Model.Results Model.ResultsAPI Model.ResultsSpec Model.Prog Model.Core Model.Peg Model.NamesSpec.
+From PP Require Import Proofs.ResultsProofs Proofs.Names Proofs.NamesE2E.
 Import ListNotations.
 
 (* a token element named n reports the token it matched *)
@@ -75,3 +78,234 @@ Example C05_instance :
   let r := pr_iadd (w x) (w x) in
   mm_lookup (view r) x = Some (VPR [VStr [97%N]; VStr [97%N]] [] []).
 Proof. vm_compute. reflexivity. Qed.
+
+(* ================================================================================================================= *)
+(* Part 2: END TO END over the parser                                                                                *)
+(* ================================================================================================================= *)
+(* `names_of G s fuel e loc` (Model/NamesSpec.v) is the reference reading: it follows the PEG reading of C01 and computes,
+   from the derivation alone, the abstract results of the element — the list of its tokens (a Group as one nested
+   sub-result carrying its own names) and the ordered multimap name -> values with the set of list-all names — by the
+   clauses of the property (token name; sequence / repetition = concatenation in order, the name of a list-saving element
+   reporting the list of its tokens; Group scoping; the matched alternative only; unmatched Opt silent, or its default;
+   FollowedBy keeps names and no token; NotAny, Suppress report nothing; Forward = its body).
+   `nproj` keeps of an outcome: success / ParseException / divergence / out of fuel, the end position and `view r`
+   (Model/ResultsSpec.v), i.e. everything r[name], keys(), as_dict(), dump(), as_list() are functions of.
+
+   _partial, what is missing with respect to the text of the property:
+     * the class `in_class_n` (boolean, Model/NamesSpec.v) = the class of C01_peg_equiv with results names (ordinary and
+       list-all) allowed on every element, minus Each and Combine; no parse actions, no ignore expressions, no stop_on;
+       token elements are not list-saving; an Opt default is a str, an int or a bool (not None); an Opt with a default whose content carries a
+       LIST-ALL name is excluded, because there the code deviates from the property (C05_opt_default_listall_refuted);
+     * which elements are list-saving (`aslist`) and which names are list-all (`modalr`) is read from the DUMPED attributes
+       of the real objects; with the flags decided by the structure of the grammar instead, the statement is false for a
+       Forward named before its assignment (F-05c: C05_forward_name_flagfree_refuted);
+     * the reference is tied to the implementation by tools/props/c05.py (names_of evaluated by coqc on dumps of random
+       named grammars of the class, compared with the view of what parse_string returns). *)
+Theorem C05_names_end_to_end_partial : forall (G : env) (s : str), env_in_class_n G = true ->
+  forall f e, in_class_n G e = true -> forall loc d,
+  nproj (parse (step G) f (mkargs e s loc d true)) = Some (names_of G s f e loc).
+Proof. exact names_e2e. Qed.
+
+(* the same, read through the public lookups: whenever the parser succeeds, the token list, r[name] for EVERY name
+   (None = KeyError), keys() and as_dict() of its results are those of the table of the reference reading *)
+Theorem C05_names_lookups_end_to_end_partial : forall (G : env) (s : str), env_in_class_n G = true ->
+  forall f e, in_class_n G e = true -> forall loc d l r,
+  parse (step G) f (mkargs e s loc d true) = Some (Ok l r) ->
+  exists v, names_of G s f e loc = NOk l v /\
+    map tview (toks r) = av_list v /\
+    (forall k, option_map tview (pr_getname r k) = mm_lookup v k) /\
+    keys r = map fst (av_map v) /\
+    map (fun kv => (fst kv, dview (snd kv))) (as_dict r) = spec_as_dict v.
+Proof. exact names_e2e_lookups. Qed.
+
+(* ---- instances: dumps (tools/harness/dump.py, after streamline()) of real pyparsing objects; tools/props/c05.py
+   (E2E_WITNESSES) re-dumps them on every run and compares them with these terms.  Every Example states: the grammar is in
+   the class, the parser's answer projects to the reference's (the conclusion of the theorem, computed), and the names
+   (`name_view`: every key with r[key], nested results as lists — the form of the scenario table of c05.py). ---- *)
+Definition c05_at (n : nat) (rs : option str) (mo asl sk : bool) (wh : list char) (cp mi cu hm ct : bool) (sl : nat) : attrs :=
+  {| nid := n; rsname := rs; modalr := mo; aslist := asl; skipws := sk; white := wh; callpre := cp; mayidx := mi;
+     custom := cu; hasmsg := hm; acts := []; calltry := ct; slen := sl |}.
+
+(* w_main = Word('ab')('k') + Group(Word('12')('n') + Word('12')('n'))('g') + Opt(Word('ab')('o')) on "a 1 2 b" / "a 1 2";
+   the others are the scenarios of tools/props/c05.py of the same name *)
+Definition w_main_G : env := [].
+Definition w_main : expr := (Nary (c05_at 1 None true true true [9;10;13;32]%N true true false true false 41) [] NAnd [(Tok (c05_at 2 (Some [107]%N) true false true [9;10;13;32]%N true false false true false 6) [] (KWord [97;98]%N [97;98]%N 1 None false false true)); (Enh (c05_at 3 (Some [103]%N) true true true [9;10;13;32]%N true true false false false 23) [] (EGroup false) (Nary (c05_at 4 None true true true [9;10;13;32]%N true true false true false 15) [] NAnd [(Tok (c05_at 5 (Some [110]%N) true false true [9;10;13;32]%N true false false true false 6) [] (KWord [49;50]%N [49;50]%N 1 None false false true)); (Tok (c05_at 6 (Some [110]%N) true false true [9;10;13;32]%N true false false true false 6) [] (KWord [49;50]%N [49;50]%N 1 None false false true))])); (Enh (c05_at 7 None true false true [9;10;13;32]%N true false false false false 8) [] (EOpt None) (Tok (c05_at 8 (Some [111]%N) true false true [9;10;13;32]%N true false false true false 6) [] (KWord [97;98]%N [97;98]%N 1 None false false true)))]).
+Example C05_e2e_main_1 :
+  in_class_n w_main_G w_main && env_in_class_n w_main_G = true /\
+  nproj (parse (step w_main_G) 40 (mkargs w_main [97;32;49;32;50;32;98]%N 0 true true)) = Some (names_of w_main_G [97;32;49;32;50;32;98]%N 40 w_main 0) /\
+  nres_names (names_of w_main_G [97;32;49;32;50;32;98]%N 40 w_main 0) = Some [([107]%N, VStr [97]%N); ([103]%N, VList [VStr [49]%N; VStr [50]%N]); ([111]%N, VStr [98]%N)].
+Proof. vm_compute. repeat split. Qed.
+Example C05_e2e_main_2 :
+  in_class_n w_main_G w_main && env_in_class_n w_main_G = true /\
+  nproj (parse (step w_main_G) 40 (mkargs w_main [97;32;49;32;50]%N 0 true true)) = Some (names_of w_main_G [97;32;49;32;50]%N 40 w_main 0) /\
+  nres_names (names_of w_main_G [97;32;49;32;50]%N 40 w_main 0) = Some [([107]%N, VStr [97]%N); ([103]%N, VList [VStr [49]%N; VStr [50]%N])].
+Proof. vm_compute. repeat split. Qed.
+Definition w_last_wins_G : env := [].
+Definition w_last_wins : expr := (Nary (c05_at 1 None true true true [9;10;13;32]%N true true false true false 15) [] NAnd [(Tok (c05_at 2 (Some [120]%N) true false true [9;10;13;32]%N true false false true false 6) [] (KWord [97;98]%N [97;98]%N 1 None false false true)); (Tok (c05_at 3 (Some [120]%N) true false true [9;10;13;32]%N true false false true false 6) [] (KWord [97;98]%N [97;98]%N 1 None false false true))]).
+Example C05_e2e_last_wins :
+  in_class_n w_last_wins_G w_last_wins && env_in_class_n w_last_wins_G = true /\
+  nproj (parse (step w_last_wins_G) 40 (mkargs w_last_wins [97;32;98]%N 0 true true)) = Some (names_of w_last_wins_G [97;32;98]%N 40 w_last_wins 0) /\
+  nres_names (names_of w_last_wins_G [97;32;98]%N 40 w_last_wins 0) = Some [([120]%N, VStr [98]%N)].
+Proof. vm_compute. repeat split. Qed.
+Definition w_listall_G : env := [].
+Definition w_listall : expr := (Nary (c05_at 1 None true true true [9;10;13;32]%N true true false true false 15) [] NAnd [(Tok (c05_at 2 (Some [120]%N) false false true [9;10;13;32]%N true false false true false 6) [] (KWord [97;98]%N [97;98]%N 1 None false false true)); (Tok (c05_at 3 (Some [120]%N) false false true [9;10;13;32]%N true false false true false 6) [] (KWord [97;98]%N [97;98]%N 1 None false false true))]).
+Example C05_e2e_listall :
+  in_class_n w_listall_G w_listall && env_in_class_n w_listall_G = true /\
+  nproj (parse (step w_listall_G) 40 (mkargs w_listall [97;32;98]%N 0 true true)) = Some (names_of w_listall_G [97;32;98]%N 40 w_listall 0) /\
+  nres_names (names_of w_listall_G [97;32;98]%N 40 w_listall 0) = Some [([120]%N, VList [VStr [97]%N; VStr [98]%N])].
+Proof. vm_compute. repeat split. Qed.
+Definition w_seq_inner_G : env := [].
+Definition w_seq_inner : expr := (Nary (c05_at 1 (Some [115]%N) true true true [9;10;13;32]%N true true false true false 15) [] NAnd [(Tok (c05_at 2 (Some [120]%N) true false true [9;10;13;32]%N true false false true false 6) [] (KWord [97;98]%N [97;98]%N 1 None false false true)); (Tok (c05_at 3 (Some [121]%N) true false true [9;10;13;32]%N true false false true false 6) [] (KWord [97;98]%N [97;98]%N 1 None false false true))]).
+Example C05_e2e_seq_inner :
+  in_class_n w_seq_inner_G w_seq_inner && env_in_class_n w_seq_inner_G = true /\
+  nproj (parse (step w_seq_inner_G) 40 (mkargs w_seq_inner [97;32;98]%N 0 true true)) = Some (names_of w_seq_inner_G [97;32;98]%N 40 w_seq_inner 0) /\
+  nres_names (names_of w_seq_inner_G [97;32;98]%N 40 w_seq_inner 0) = Some [([120]%N, VStr [97]%N); ([121]%N, VStr [98]%N); ([115]%N, VList [VStr [97]%N; VStr [98]%N])].
+Proof. vm_compute. repeat split. Qed.
+Definition w_listall_container_G : env := [].
+Definition w_listall_container : expr := (Nary (c05_at 1 (Some [121]%N) false true true [9;10;13;32]%N true true false true false 15) [] NAnd [(Tok (c05_at 2 (Some [120]%N) false false true [9;10;13;32]%N true false false true false 6) [] (KWord [97;98]%N [97;98]%N 1 None false false true)); (Tok (c05_at 3 (Some [120]%N) false false true [9;10;13;32]%N true false false true false 6) [] (KWord [97;98]%N [97;98]%N 1 None false false true))]).
+Example C05_e2e_listall_container :
+  in_class_n w_listall_container_G w_listall_container && env_in_class_n w_listall_container_G = true /\
+  nproj (parse (step w_listall_container_G) 40 (mkargs w_listall_container [97;32;98]%N 0 true true)) = Some (names_of w_listall_container_G [97;32;98]%N 40 w_listall_container 0) /\
+  nres_names (names_of w_listall_container_G [97;32;98]%N 40 w_listall_container 0) = Some [([120]%N, VList [VStr [97]%N; VStr [98]%N]); ([121]%N, VList [VList [VStr [97]%N; VStr [98]%N]])].
+Proof. vm_compute. repeat split. Qed.
+Definition w_rep_last_G : env := [].
+Definition w_rep_last : expr := (Rep (c05_at 1 None true true true [9;10;13;32]%N true false false false false 11) [] false (Tok (c05_at 2 (Some [120]%N) true false true [9;10;13;32]%N true false false true false 6) [] (KWord [97;98]%N [97;98]%N 1 None false false true)) None).
+Example C05_e2e_rep_last :
+  in_class_n w_rep_last_G w_rep_last && env_in_class_n w_rep_last_G = true /\
+  nproj (parse (step w_rep_last_G) 40 (mkargs w_rep_last [97;32;98]%N 0 true true)) = Some (names_of w_rep_last_G [97;32;98]%N 40 w_rep_last 0) /\
+  nres_names (names_of w_rep_last_G [97;32;98]%N 40 w_rep_last 0) = Some [([120]%N, VStr [98]%N)].
+Proof. vm_compute. repeat split. Qed.
+Definition w_rep_listall_G : env := [].
+Definition w_rep_listall : expr := (Rep (c05_at 1 None true true true [9;10;13;32]%N true false false false false 11) [] false (Tok (c05_at 2 (Some [120]%N) false false true [9;10;13;32]%N true false false true false 6) [] (KWord [97;98]%N [97;98]%N 1 None false false true)) None).
+Example C05_e2e_rep_listall :
+  in_class_n w_rep_listall_G w_rep_listall && env_in_class_n w_rep_listall_G = true /\
+  nproj (parse (step w_rep_listall_G) 40 (mkargs w_rep_listall [97;32;98]%N 0 true true)) = Some (names_of w_rep_listall_G [97;32;98]%N 40 w_rep_listall 0) /\
+  nres_names (names_of w_rep_listall_G [97;32;98]%N 40 w_rep_listall 0) = Some [([120]%N, VList [VStr [97]%N; VStr [98]%N])].
+Proof. vm_compute. repeat split. Qed.
+Definition w_group_scope_G : env := [].
+Definition w_group_scope : expr := (Nary (c05_at 1 None true true true [9;10;13;32]%N true true false true false 23) [] NAnd [(Enh (c05_at 2 None true true true [9;10;13;32]%N true false false false false 14) [] (EGroup false) (Tok (c05_at 3 (Some [120]%N) true false true [9;10;13;32]%N true false false true false 6) [] (KWord [97;98]%N [97;98]%N 1 None false false true))); (Tok (c05_at 4 (Some [121]%N) true false true [9;10;13;32]%N true false false true false 6) [] (KWord [97;98]%N [97;98]%N 1 None false false true))]).
+Example C05_e2e_group_scope :
+  in_class_n w_group_scope_G w_group_scope && env_in_class_n w_group_scope_G = true /\
+  nproj (parse (step w_group_scope_G) 40 (mkargs w_group_scope [97;32;98]%N 0 true true)) = Some (names_of w_group_scope_G [97;32;98]%N 40 w_group_scope 0) /\
+  nres_names (names_of w_group_scope_G [97;32;98]%N 40 w_group_scope 0) = Some [([121]%N, VStr [98]%N)].
+Proof. vm_compute. repeat split. Qed.
+Definition w_group_name_G : env := [].
+Definition w_group_name : expr := (Enh (c05_at 1 (Some [103]%N) true true true [9;10;13;32]%N true true false false false 23) [] (EGroup false) (Nary (c05_at 2 None true true true [9;10;13;32]%N true true false true false 15) [] NAnd [(Tok (c05_at 3 (Some [120]%N) true false true [9;10;13;32]%N true false false true false 6) [] (KWord [97;98]%N [97;98]%N 1 None false false true)); (Tok (c05_at 4 None true false true [9;10;13;32]%N true false false true false 6) [] (KWord [97;98]%N [97;98]%N 1 None false false true))])).
+Example C05_e2e_group_name :
+  in_class_n w_group_name_G w_group_name && env_in_class_n w_group_name_G = true /\
+  nproj (parse (step w_group_name_G) 40 (mkargs w_group_name [97;32;98]%N 0 true true)) = Some (names_of w_group_name_G [97;32;98]%N 40 w_group_name 0) /\
+  nres_names (names_of w_group_name_G [97;32;98]%N 40 w_group_name 0) = Some [([103]%N, VList [VStr [97]%N; VStr [98]%N])].
+Proof. vm_compute. repeat split. Qed.
+Definition w_alternative_G : env := [].
+Definition w_alternative : expr := (Nary (c05_at 1 None true true true [9;10;13;32]%N false true false true false 27) [] NMatchFirst [(Nary (c05_at 2 None true true true [9;10;13;32]%N true true false true false 11) [] NAnd [(Tok (c05_at 3 (Some [120]%N) true false true [9;10;13;32]%N true false false true false 5) [] (KWord [97]%N [97]%N 1 None false false true)); (Tok (c05_at 4 None true false true [9;10;13;32]%N true false false true false 3) [] (KLit [49]%N))]); (Nary (c05_at 5 None true true true [9;10;13;32]%N true true false true false 11) [] NAnd [(Tok (c05_at 6 (Some [121]%N) true false true [9;10;13;32]%N true false false true false 5) [] (KWord [97]%N [97]%N 1 None false false true)); (Tok (c05_at 7 None true false true [9;10;13;32]%N true false false true false 3) [] (KLit [50]%N))])]).
+Example C05_e2e_alternative :
+  in_class_n w_alternative_G w_alternative && env_in_class_n w_alternative_G = true /\
+  nproj (parse (step w_alternative_G) 40 (mkargs w_alternative [97;32;50]%N 0 true true)) = Some (names_of w_alternative_G [97;32;50]%N 40 w_alternative 0) /\
+  nres_names (names_of w_alternative_G [97;32;50]%N 40 w_alternative 0) = Some [([121]%N, VStr [97]%N)].
+Proof. vm_compute. repeat split. Qed.
+Definition w_opt_unmatched_G : env := [].
+Definition w_opt_unmatched : expr := (Nary (c05_at 1 None true true true [9;10;13;32]%N true true false true false 15) [] NAnd [(Enh (c05_at 2 None true false true [9;10;13;32]%N true false false false false 7) [] (EOpt None) (Tok (c05_at 3 (Some [120]%N) true false true [9;10;13;32]%N true false false true false 5) [] (KWord [97]%N [97]%N 1 None false false true))); (Tok (c05_at 4 (Some [121]%N) true false true [9;10;13;32]%N true false false true false 5) [] (KWord [98]%N [98]%N 1 None false false true))]).
+Example C05_e2e_opt_unmatched :
+  in_class_n w_opt_unmatched_G w_opt_unmatched && env_in_class_n w_opt_unmatched_G = true /\
+  nproj (parse (step w_opt_unmatched_G) 40 (mkargs w_opt_unmatched [98]%N 0 true true)) = Some (names_of w_opt_unmatched_G [98]%N 40 w_opt_unmatched 0) /\
+  nres_names (names_of w_opt_unmatched_G [98]%N 40 w_opt_unmatched 0) = Some [([121]%N, VStr [98]%N)].
+Proof. vm_compute. repeat split. Qed.
+Definition w_opt_default_G : env := [].
+Definition w_opt_default : expr := (Nary (c05_at 1 None true true true [9;10;13;32]%N true true false true false 15) [] NAnd [(Enh (c05_at 2 None true false true [9;10;13;32]%N true false false false false 7) [] (EOpt (Some (TStr [68]%N))) (Tok (c05_at 3 (Some [120]%N) true false true [9;10;13;32]%N true false false true false 5) [] (KWord [97]%N [97]%N 1 None false false true))); (Tok (c05_at 4 (Some [121]%N) true false true [9;10;13;32]%N true false false true false 5) [] (KWord [98]%N [98]%N 1 None false false true))]).
+Example C05_e2e_opt_default :
+  in_class_n w_opt_default_G w_opt_default && env_in_class_n w_opt_default_G = true /\
+  nproj (parse (step w_opt_default_G) 40 (mkargs w_opt_default [98]%N 0 true true)) = Some (names_of w_opt_default_G [98]%N 40 w_opt_default 0) /\
+  nres_names (names_of w_opt_default_G [98]%N 40 w_opt_default 0) = Some [([120]%N, VStr [68]%N); ([121]%N, VStr [98]%N)].
+Proof. vm_compute. repeat split. Qed.
+Definition w_suppress_G : env := [].
+Definition w_suppress : expr := (Nary (c05_at 1 None true true true [9;10;13;32]%N true true false true false 24) [] NAnd [(Enh (c05_at 2 (Some [120]%N) true false true [9;10;13;32]%N true false false false false 16) [] ESuppress (Tok (c05_at 3 None true false true [9;10;13;32]%N true false false true false 5) [] (KWord [97]%N [97]%N 1 None false false true))); (Tok (c05_at 4 (Some [121]%N) true false true [9;10;13;32]%N true false false true false 5) [] (KWord [98]%N [98]%N 1 None false false true))]).
+Example C05_e2e_suppress :
+  in_class_n w_suppress_G w_suppress && env_in_class_n w_suppress_G = true /\
+  nproj (parse (step w_suppress_G) 40 (mkargs w_suppress [97;32;98]%N 0 true true)) = Some (names_of w_suppress_G [97;32;98]%N 40 w_suppress 0) /\
+  nres_names (names_of w_suppress_G [97;32;98]%N 40 w_suppress 0) = Some [([121]%N, VStr [98]%N)].
+Proof. vm_compute. repeat split. Qed.
+Definition w_followedby_G : env := [].
+Definition w_followedby : expr := (Nary (c05_at 1 None true true true [9;10;13;32]%N true true false true false 27) [] NAnd [(Enh (c05_at 2 None true false true [9;10;13;32]%N true false false false false 18) [] EFollowedBy (Tok (c05_at 3 (Some [120]%N) true false true [9;10;13;32]%N true false false true false 5) [] (KWord [97]%N [97]%N 1 None false false true))); (Tok (c05_at 4 (Some [121]%N) true false true [9;10;13;32]%N true false false true false 6) [] (KWord [97;98]%N [97;98]%N 1 None false false true))]).
+Example C05_e2e_followedby :
+  in_class_n w_followedby_G w_followedby && env_in_class_n w_followedby_G = true /\
+  nproj (parse (step w_followedby_G) 40 (mkargs w_followedby [97;98]%N 0 true true)) = Some (names_of w_followedby_G [97;98]%N 40 w_followedby 0) /\
+  nres_names (names_of w_followedby_G [97;98]%N 40 w_followedby 0) = Some [([120]%N, VStr [97]%N); ([121]%N, VStr [97;98]%N)].
+Proof. vm_compute. repeat split. Qed.
+Definition w_nested_or_G : env := [].
+Definition w_nested_or : expr := (Nary (c05_at 1 None true false true [9;10;13;32]%N false true false true false 25) [] NOr [(Tok (c05_at 2 None true false true [9;10;13;32]%N true false false true false 3) [] (KLit [120]%N)); (Nary (c05_at 3 (Some [118]%N) true false true [9;10;13;32]%N false true false true false 17) [] NOr [(Tok (c05_at 4 None true false true [9;10;13;32]%N true false false true false 6) [] (KWord [49;50]%N [49;50]%N 1 None false false true)); (Tok (c05_at 5 None true false true [9;10;13;32]%N true false false true false 6) [] (KWord [97;98]%N [97;98]%N 1 None false false true))])]).
+Example C05_e2e_nested_or :
+  in_class_n w_nested_or_G w_nested_or && env_in_class_n w_nested_or_G = true /\
+  nproj (parse (step w_nested_or_G) 40 (mkargs w_nested_or [97;98]%N 0 true true)) = Some (names_of w_nested_or_G [97;98]%N 40 w_nested_or 0) /\
+  nres_names (names_of w_nested_or_G [97;98]%N 40 w_nested_or 0) = Some [([118]%N, VStr [97;98]%N)].
+Proof. vm_compute. repeat split. Qed.
+Definition w_rep_nested_listall_G : env := [].
+Definition w_rep_nested_listall : expr := (Rep (c05_at 1 None true true true [9;10;13;32]%N true true false false false 29) [] false (Nary (c05_at 2 None true true true [9;10;13;32]%N true true false true false 24) [] NAnd [(Tok (c05_at 3 None true false true [9;10;13;32]%N true false false true false 6) [] (KWord [97;98]%N [97;98]%N 1 None false false true)); (Nary (c05_at 4 (Some [112;97;105;114]%N) false true true [9;10;13;32]%N true true false true false 15) [] NAnd [(Tok (c05_at 5 None true false true [9;10;13;32]%N true false false true false 6) [] (KWord [49;50]%N [49;50]%N 1 None false false true)); (Tok (c05_at 6 None true false true [9;10;13;32]%N true false false true false 6) [] (KWord [49;50]%N [49;50]%N 1 None false false true))])]) None).
+Example C05_e2e_rep_nested_listall :
+  in_class_n w_rep_nested_listall_G w_rep_nested_listall && env_in_class_n w_rep_nested_listall_G = true /\
+  nproj (parse (step w_rep_nested_listall_G) 40 (mkargs w_rep_nested_listall [97;32;49;32;50;32;98;32;50;32;49]%N 0 true true)) = Some (names_of w_rep_nested_listall_G [97;32;49;32;50;32;98;32;50;32;49]%N 40 w_rep_nested_listall 0) /\
+  nres_names (names_of w_rep_nested_listall_G [97;32;49;32;50;32;98;32;50;32;49]%N 40 w_rep_nested_listall 0) = Some [([112;97;105;114]%N, VList [VList [VStr [49]%N; VStr [50]%N]; VList [VStr [50]%N; VStr [49]%N]])].
+Proof. vm_compute. repeat split. Qed.
+Definition w_zero_rep_G : env := [].
+Definition w_zero_rep : expr := (Nary (c05_at 1 None true true true [9;10;13;32]%N true true false true false 18) [] NAnd [(Rep (c05_at 2 (Some [122]%N) true true true [9;10;13;32]%N true false false false false 10) [] true (Tok (c05_at 3 None true false true [9;10;13;32]%N true false false true false 5) [] (KWord [97]%N [97]%N 1 None false false true)) None); (Tok (c05_at 4 None true false true [9;10;13;32]%N true false false true false 5) [] (KWord [98]%N [98]%N 1 None false false true))]).
+Example C05_e2e_zero_rep :
+  in_class_n w_zero_rep_G w_zero_rep && env_in_class_n w_zero_rep_G = true /\
+  nproj (parse (step w_zero_rep_G) 40 (mkargs w_zero_rep [98]%N 0 true true)) = Some (names_of w_zero_rep_G [98]%N 40 w_zero_rep 0) /\
+  nres_names (names_of w_zero_rep_G [98]%N 40 w_zero_rep 0) = Some [([122]%N, VList [])].
+Proof. vm_compute. repeat split. Qed.
+Definition w_f05c_G : env := [(Fwd (c05_at 2 None true true true [9;10;13;32]%N true true false false false 25) [] (Some 1)); (Nary (c05_at 3 None true true true [9;10;13;32]%N true true false true false 16) [] NAnd [(Tok (c05_at 4 None true false true [9;10;13;32]%N true false false true false 3) [] (KLit [40]%N)); (Tok (c05_at 5 None true false true [9;10;13;32]%N true false false true false 6) [] (KWord [97;98]%N [97;98]%N 1 None false false true)); (Tok (c05_at 6 None true false true [9;10;13;32]%N true false false true false 3) [] (KLit [41]%N))])].
+Definition w_f05c : expr := (Fwd (c05_at 1 (Some [113]%N) true false true [9;10;13;32]%N true true false false false 34) [] (Some 0)).
+Example C05_e2e_f05c :
+  in_class_n w_f05c_G w_f05c && env_in_class_n w_f05c_G = true /\
+  nproj (parse (step w_f05c_G) 40 (mkargs w_f05c [40;97;98;41]%N 0 true true)) = Some (names_of w_f05c_G [40;97;98;41]%N 40 w_f05c 0) /\
+  nres_names (names_of w_f05c_G [40;97;98;41]%N 40 w_f05c 0) = Some [([113]%N, VStr [40]%N)].
+Proof. vm_compute. repeat split. Qed.
+Definition w_fwd_named_after_G : env := [(Nary (c05_at 2 None true true true [9;10;13;32]%N true true false true false 16) [] NAnd [(Tok (c05_at 3 None true false true [9;10;13;32]%N true false false true false 3) [] (KLit [40]%N)); (Tok (c05_at 4 None true false true [9;10;13;32]%N true false false true false 6) [] (KWord [97;98]%N [97;98]%N 1 None false false true)); (Tok (c05_at 5 None true false true [9;10;13;32]%N true false false true false 3) [] (KLit [41]%N))])].
+Definition w_fwd_named_after : expr := (Fwd (c05_at 1 (Some [113]%N) true true true [9;10;13;32]%N true true false false false 25) [] (Some 0)).
+Example C05_e2e_fwd_named_after :
+  in_class_n w_fwd_named_after_G w_fwd_named_after && env_in_class_n w_fwd_named_after_G = true /\
+  nproj (parse (step w_fwd_named_after_G) 40 (mkargs w_fwd_named_after [40;97;98;41]%N 0 true true)) = Some (names_of w_fwd_named_after_G [40;97;98;41]%N 40 w_fwd_named_after 0) /\
+  nres_names (names_of w_fwd_named_after_G [40;97;98;41]%N 40 w_fwd_named_after 0) = Some [([113]%N, VList [VStr [40]%N; VStr [97;98]%N; VStr [41]%N])].
+Proof. vm_compute. repeat split. Qed.
+Definition w_opt_default_listall_G : env := [].
+Definition w_opt_default_listall : expr := (Enh (c05_at 1 None true false true [9;10;13;32]%N true false false false false 7) [] (EOpt (Some (TStr [68]%N))) (Tok (c05_at 2 (Some [120]%N) false false true [9;10;13;32]%N true false false true false 5) [] (KWord [97]%N [97]%N 1 None false false true))).
+
+(* Group scoping end to end, on w_main: the names declared inside the Group are visible on the group's sub-result only *)
+Example C05_e2e_main_scoping :
+  match names_of w_main_G [97;32;49;32;50;32;98]%N 40 w_main 0 with
+  | NOk _ v => mm_lookup v [110]%N = None /\
+               mm_lookup v [103]%N = Some (VPR [VStr [49]%N; VStr [50]%N] [([110]%N, [VStr [49]%N; VStr [50]%N])] [])
+  | _ => False
+  end.
+Proof. vm_compute. split; reflexivity. Qed.
+
+(* F-05c (recorded, not repaired).  The theorem reads `saveAsList` from the dump.  Decided by the structure of the grammar
+   ("a name on a sequence reports the list of its tokens": `fwd_reports_token_list`, Model/NamesSpec.v) the statement is
+   false: F = Forward(); named = F('q'); F <<= '(' + Word('ab') + ')' — the copy made by F('q') keeps the empty Forward's
+   saveAsList == False, and named.parse_string('(ab)')['q'] is '(' although the body is a sequence returning
+   ['(', 'ab', ')'].  (w_fwd_named_after above: named after the assignment, q is the list.) *)
+Example C05_forward_name_flagfree_refuted :
+  exists (G : env) (e : expr) (s : str) (l : nat) (r : pres),
+    env_in_class_n G = true /\ in_class_n G e = true /\
+    parse (step G) 40 (mkargs e s 0 true true) = Some (Ok l r) /\ ~ fwd_reports_token_list G e r.
+Proof.
+  exists w_f05c_G, w_f05c, [40;97;98;41]%N. eexists. eexists.
+  split; [vm_compute; reflexivity|]. split; [vm_compute; reflexivity|]. split; [vm_compute; reflexivity|].
+  vm_compute. intros H. specialize (H eq_refl). discriminate H.
+Qed.
+
+(* Candidate finding F-05e.  Opt(Word('a')('x*'), default='D') on '': Opt.parseImpl stores the default under the content's
+   name with `tokens[name] = default` on a fresh ParseResults, which never records that x was declared list-all: r['x'] is
+   'D', whereas a match gives the list ['a'] ("all values in order for a list-all name").  Hence the exclusion in
+   `in_class_n` (opt_ok). *)
+Example C05_opt_default_listall_refuted :
+  exists (e : expr) (l : nat) (r : pres),
+    (exists a i v a' i' t, e = Enh a i (EOpt (Some v)) (Tok a' i' t) /\ rsname a' = Some [120]%N /\ modalr a' = false) /\
+    in_class_n [] e = false /\
+    parse (step []) 40 (mkargs e [] 0 true true) = Some (Ok l r) /\
+    mm_lookup (view r) [120]%N = Some (VStr [68]%N).
+Proof.
+  exists w_opt_default_listall. eexists. eexists.
+  split; [do 6 eexists; split; [reflexivity|split; reflexivity]|].
+  split; [vm_compute; reflexivity|]. split; vm_compute; reflexivity.
+Qed.
+
